@@ -39,13 +39,19 @@ var Atoms = []string{
 // UnaryOps is the quantifier alphabet of P (capture is a separate node kind).
 var UnaryOps = []string{"*", "+", "?", "*?", "+?", "??", "{2}", "{1,2}", "{2,}"}
 
-func A(s string) *Node            { return &Node{Kind: KAtom, Atom: s} }
-func U(op string, k *Node) *Node  { return &Node{Kind: KUnary, Op: op, Kids: []*Node{k}} }
-func Cap(k *Node) *Node           { return &Node{Kind: KCap, Kids: []*Node{k}} }
-func Cat(ks ...*Node) *Node       { return &Node{Kind: KConcat, Kids: ks} }
-func Alt(ks ...*Node) *Node       { return &Node{Kind: KAlt, Kids: ks} }
-func (n *Node) String() string    { var sb strings.Builder; n.print(&sb); return sb.String() }
-func (n *Node) Size() int         { s := 1; for _, k := range n.Kids { s += k.Size() }; return s }
+func A(s string) *Node           { return &Node{Kind: KAtom, Atom: s} }
+func U(op string, k *Node) *Node { return &Node{Kind: KUnary, Op: op, Kids: []*Node{k}} }
+func Cap(k *Node) *Node          { return &Node{Kind: KCap, Kids: []*Node{k}} }
+func Cat(ks ...*Node) *Node      { return &Node{Kind: KConcat, Kids: ks} }
+func Alt(ks ...*Node) *Node      { return &Node{Kind: KAlt, Kids: ks} }
+func (n *Node) String() string   { var sb strings.Builder; n.print(&sb); return sb.String() }
+func (n *Node) Size() int {
+	s := 1
+	for _, k := range n.Kids {
+		s += k.Size()
+	}
+	return s
+}
 func (n *Node) HasCapture() bool {
 	if n.Kind == KCap {
 		return true
@@ -153,7 +159,7 @@ func isAssertAtom(s string) bool {
 // isPlainLiteral: a multi-character literal such as "foo" (already QuoteMeta'd) can sit in a concatenation
 // ungrouped.
 func isPlainLiteral(s string) bool {
-	return !strings.ContainsAny(s, "|()[]*+?{}^$.")|| syntaxIsLiteral(s)
+	return !strings.ContainsAny(s, "|()[]*+?{}^$.") || syntaxIsLiteral(s)
 }
 
 func syntaxIsLiteral(s string) bool {
